@@ -1879,7 +1879,129 @@ class _Normalizer:
                 inner = [ast.For(target=g.target, iter=g.iter, body=inner, orelse=[])]
             return inner
 
+        def key_apply(fn_, arg):
+            """the expression ``fn_(arg)`` for the key functions that have one: lambda, itemgetter(c), attrgetter('a'), None"""
+            if fn_ is None or (isinstance(fn_, ast.Constant) and fn_.value is None):
+                return arg
+            if isinstance(fn_, ast.Lambda) and len(fn_.args.args) == 1 and not (fn_.args.vararg or fn_.args.kwarg or fn_.args.kwonlyargs
+                                                                              or fn_.args.defaults):
+                pn = fn_.args.args[0].arg
+                if any(isinstance(y, (ast.Lambda, ast.NamedExpr, ast.Yield, ast.YieldFrom, ast.Await)) for y in ast.walk(fn_.body)):
+                    return None
+
+                class B(ast.NodeTransformer):
+                    def visit_Name(self_, y):
+                        if y.id == pn and isinstance(y.ctx, ast.Load):
+                            return copy.deepcopy(arg)
+                        return y
+                return B().visit(copy.deepcopy(fn_.body))
+            if isinstance(fn_, ast.Call) and ast.unparse(fn_.func) in ('itemgetter', 'operator.itemgetter') and len(fn_.args) == 1 \
+                    and not fn_.keywords and isinstance(fn_.args[0], ast.Constant):
+                return ast.Subscript(value=arg, slice=fn_.args[0], ctx=ast.Load())
+            if isinstance(fn_, ast.Call) and ast.unparse(fn_.func) in ('attrgetter', 'operator.attrgetter') and len(fn_.args) == 1 \
+                    and not fn_.keywords and isinstance(fn_.args[0], ast.Constant) and isinstance(fn_.args[0].value, str) \
+                    and fn_.args[0].value.isidentifier():
+                return ast.Attribute(value=arg, attr=fn_.args[0].value, ctx=ast.Load())
+            return None
+
+        def flatten_groupby(st):
+            it = st.iter
+            if not (isinstance(it, ast.Call) and ast.unparse(it.func) in ('groupby', 'itertools.groupby') and 'groupby' not in local):
+                return None
+            kw = {k.arg: k.value for k in it.keywords}
+            if len(it.args) == 2 and not kw:
+                src, keyf = it.args
+            elif len(it.args) == 1 and set(kw) <= {'key'}:
+                src, keyf = it.args[0], kw.get('key')
+            else:
+                return None
+            if not (isinstance(st.target, ast.Tuple) and len(st.target.elts) == 2 and all(isinstance(x, ast.Name) for x in st.target.elts)):
+                return None
+            K, G = st.target.elts[0].id, st.target.elts[1].id
+            key_names, grp_names = {K}, {G}
+            pre = []
+            body = list(st.body)
+            # leading assignments: aliases of the key / the group, and values computed from the key alone
+            flat_assigns = []
+            while body and isinstance(body[0], ast.Assign) and len(body[0].targets) == 1:
+                a = body[0]
+                if isinstance(a.targets[0], ast.Tuple) and isinstance(a.value, ast.Tuple) and len(a.targets[0].elts) == len(a.value.elts) \
+                        and all(isinstance(x, ast.Name) for x in a.targets[0].elts):
+                    # (a, b) = (x, y): pairwise, when no target is read by a later value
+                    tn_ = [x.id for x in a.targets[0].elts]
+                    if any(isinstance(y, ast.Name) and y.id in tn_ for v_ in a.value.elts for y in ast.walk(v_)):
+                        break
+                    flat_assigns.extend(ast.Assign(targets=[t_], value=v_) for t_, v_ in zip(a.targets[0].elts, a.value.elts))
+                elif isinstance(a.targets[0], ast.Name):
+                    flat_assigns.append(a)
+                else:
+                    break
+                body = body[1:]
+            for a in flat_assigns:
+                nm, v = a.targets[0].id, a.value
+                if isinstance(v, ast.Name) and v.id in key_names:
+                    key_names.add(nm)
+                    pre.append(a)
+                elif (isinstance(v, ast.Name) and v.id in grp_names) or (
+                        isinstance(v, ast.Call) and isinstance(v.func, ast.Name) and v.func.id in ('list', 'tuple', 'iter') and len(v.args) == 1
+                        and not v.keywords and isinstance(v.args[0], ast.Name) and v.args[0].id in grp_names):
+                    grp_names.add(nm)
+                else:
+                    if any(isinstance(y, (ast.Call, ast.Lambda, ast.NamedExpr, ast.Yield, ast.YieldFrom, ast.Await, ast.ListComp,
+                                          ast.GeneratorExp, ast.DictComp, ast.SetComp)) for y in ast.walk(v)):
+                        return None
+                    if any(isinstance(y, ast.Name) and y.id in grp_names for y in ast.walk(v)):
+                        return None
+                    pre.append(a)
+            if len(body) != 1 or not isinstance(body[0], ast.For) or body[0].orelse:
+                return None
+            inner = body[0]
+            ii = inner.iter
+            if isinstance(ii, ast.Call) and isinstance(ii.func, ast.Name) and ii.func.id in ('list', 'tuple', 'iter') and len(ii.args) == 1 \
+                    and not ii.keywords:
+                ii = ii.args[0]
+            if not (isinstance(ii, ast.Name) and ii.id in grp_names):
+                return None
+            if _loop_level(inner.body, (ast.Break,)):
+                return None
+            # the group is used for nothing else; the body leaves alone what the per-group values were computed from
+            if any(isinstance(y, ast.Name) and y.id in grp_names for b in inner.body for y in ast.walk(b)):
+                return None
+            pre_targets = {a.targets[0].id for a in pre}
+            inner_t = {y.id for y in ast.walk(inner.target) if isinstance(y, ast.Name)}
+            if inner_t & (pre_targets | key_names):
+                return None
+            reads_n = {y.id for a in pre for y in ast.walk(a.value) if isinstance(y, ast.Name)} - key_names
+            reads_a = {ast.unparse(y) for a in pre for y in ast.walk(a.value) if isinstance(y, ast.Attribute) and _is_simple(y)}
+            for b in inner.body:
+                for y in ast.walk(b):
+                    if isinstance(y, ast.Name) and isinstance(y.ctx, (ast.Store, ast.Del)) and y.id in (reads_n | pre_targets | key_names | inner_t - inner_t):
+                        return None
+                    if isinstance(y, (ast.Attribute, ast.Subscript)) and isinstance(y.ctx, (ast.Store, ast.Del)):
+                        t_ = ast.unparse(y.value if isinstance(y, ast.Subscript) else y)
+                        if any(t_ == r or t_.startswith(r + '.') or t_.startswith(r + '[') or r.startswith(t_ + '.') for r in reads_a):
+                            return None
+                    if isinstance(y, ast.Call) and isinstance(y.func, ast.Attribute):
+                        t_ = ast.unparse(y.func.value)
+                        if any(t_ == r or t_.startswith(r + '.') for r in reads_a):
+                            return None
+            me.counter += 1
+            g = '__g%d' % me.counter
+            kexpr = key_apply(keyf, ast.Name(id=g, ctx=ast.Load()))
+            if kexpr is None:
+                return None
+            new_body = [ast.Assign(targets=[ast.Name(id=K, ctx=ast.Store())], value=kexpr),
+                        ast.Assign(targets=[inner.target], value=ast.Name(id=g, ctx=ast.Load()))] + pre + inner.body
+            return [ast.For(target=ast.Name(id=g, ctx=ast.Store()), iter=src, body=new_body, orelse=[])]
+
         def do_stmt(st):
+            # next(iter(G), D) on a generator expression is next(G, D)
+            if isinstance(st, ast.Assign) and isinstance(st.value, ast.Call) and isinstance(st.value.func, ast.Name) \
+                    and st.value.func.id == 'next' and len(st.value.args) == 2 and isinstance(st.value.args[0], ast.Call) \
+                    and isinstance(st.value.args[0].func, ast.Name) and st.value.args[0].func.id == 'iter' and 'iter' not in local \
+                    and len(st.value.args[0].args) == 1 and not st.value.args[0].keywords \
+                    and isinstance(st.value.args[0].args[0], ast.GeneratorExp):
+                st.value.args[0] = st.value.args[0].args[0]
             # first match
             if isinstance(st, ast.Assign) and len(st.targets) == 1 and isinstance(st.targets[0], ast.Name) \
                     and isinstance(st.value, ast.Call) and isinstance(st.value.func, ast.Name) and st.value.func.id == 'next' \
@@ -1919,6 +2041,30 @@ class _Normalizer:
                                                ifs=[rename(c, mp) for c in g.ifs], is_async=0) for i, g in enumerate(gens)]
                     me.stats['iteration_idioms'] = me.stats.get('iteration_idioms', 0) + 1
                     return comp_loop(gens2, [store])
+            # for K, G in groupby(S, F): PRE; for X in G: BODY   ->   for g in S: K = F(g); X = g; PRE; BODY
+            if isinstance(st, ast.For) and not st.orelse:
+                flat = flatten_groupby(st)
+                if flat is not None:
+                    me.stats['iteration_idioms'] = me.stats.get('iteration_idioms', 0) + 1
+                    return flat
+            # for x in (E for t in S if C): BODY  ->  for t in S: if C: x = E; BODY   (the elements are computed one per turn
+            # either way; break / continue / else keep their meaning because the filter comes first and only guards)
+            if isinstance(st, ast.For) and isinstance(st.iter, ast.GeneratorExp) and len(st.iter.generators) == 1 \
+                    and not st.iter.generators[0].is_async and not _has_yield(st.iter):
+                g = st.iter.generators[0]
+                tn = {n.id for n in ast.walk(g.target) if isinstance(n, ast.Name)}
+                used_elsewhere = any(isinstance(n, ast.Name) and n.id in tn for b in st.body + st.orelse for n in ast.walk(b))
+                if not used_elsewhere and not (g.ifs and _loop_level(st.body, (ast.Continue,)) and False):
+                    bind = ast.Assign(targets=[st.target], value=st.iter.elt)
+                    body = [bind] + st.body
+                    for cond in reversed(g.ifs):
+                        body = [ast.If(test=cond, body=body, orelse=[])]
+                    loop = ast.For(target=g.target, iter=g.iter, body=body, orelse=st.orelse)
+                    me.stats['iteration_idioms'] = me.stats.get('iteration_idioms', 0) + 1
+                    out_ = []
+                    for x_ in do_stmt(loop):
+                        out_.append(x_)
+                    return out_
             # for x in iter(callable, sentinel): the two-argument form of iter() calls until the sentinel comes back
             if isinstance(st, ast.For) and not st.orelse and isinstance(st.iter, ast.Call) and isinstance(st.iter.func, ast.Name) \
                     and st.iter.func.id == 'iter' and 'iter' not in local and len(st.iter.args) == 2 and not st.iter.keywords \
@@ -2023,6 +2169,20 @@ class _Normalizer:
                 if isinstance(st, ast.Try):
                     for h in st.handlers:
                         h.body = walk_body(h.body)
+                if out:
+                    # g = (genexp); x = next(g, D) / next(iter(g), D) with g used nowhere else: the generator expression in place
+                    pv = out[-1]
+                    if isinstance(pv, ast.Assign) and len(pv.targets) == 1 and isinstance(pv.targets[0], ast.Name) \
+                            and isinstance(pv.value, ast.GeneratorExp) and isinstance(st, ast.Assign) and isinstance(st.value, ast.Call) \
+                            and isinstance(st.value.func, ast.Name) and st.value.func.id == 'next' and len(st.value.args) == 2:
+                        gname = pv.targets[0].id
+                        a0 = st.value.args[0]
+                        inner_ = a0.args[0] if (isinstance(a0, ast.Call) and isinstance(a0.func, ast.Name) and a0.func.id == 'iter'
+                                                and len(a0.args) == 1 and not a0.keywords) else a0
+                        n_uses = sum(1 for n in ast.walk(fnode) if isinstance(n, ast.Name) and n.id == gname)
+                        if isinstance(inner_, ast.Name) and inner_.id == gname and n_uses == 2:
+                            st.value.args[0] = pv.value
+                            out.pop()
                 if out:
                     acc = accumulation(out[-1], st)
                     if acc is not None:
@@ -2328,7 +2488,7 @@ class _Normalizer:
         subst: Dict[str, ast.expr] = {}
         rename: Dict[str, str] = {b: tag + b for b in bound}
         for p, x in binding.items():
-            simple = _is_simple(x)
+            simple = _is_simple(x) or _is_getter(x)
             if p in bound or not (simple or uses.get(p, 0) <= 1 and len(body) == 1):
                 tmp = tag + p
                 asg = ast.Assign(targets=[ast.Name(id=tmp, ctx=ast.Store())], value=copy.deepcopy(x))
@@ -2628,6 +2788,12 @@ def _is_simple(e: ast.expr) -> bool:
     while isinstance(e, ast.Attribute):
         e = e.value
     return isinstance(e, (ast.Name, ast.Constant))
+
+
+def _is_getter(e) -> bool:
+    """``itemgetter(<constant>)`` / ``attrgetter('<name>')``: a value that may be built again wherever it is used"""
+    return isinstance(e, ast.Call) and ast.unparse(e.func) in ('itemgetter', 'operator.itemgetter', 'attrgetter', 'operator.attrgetter') \
+        and len(e.args) == 1 and not e.keywords and isinstance(e.args[0], ast.Constant)
 
 
 def _is_simple_or_const(e) -> bool:
